@@ -502,7 +502,25 @@ func C02(c *core.Ctx) {
 				}
 				n := core.BaseName(root)
 				if n != "processOutgoingInterest" && n != "processOutgoingData" {
-					bad = core.FuncName(fn) + " at " + c.Pos(in)
+					// a helper that only the outgoing pipelines call (the packet
+					// construction and the send shared by both) is inside them
+					okVia := false
+					if cs := p.Callers(root); len(cs) > 0 && root.Parent() == nil {
+						okVia = true
+						nSend += len(cs) - 1
+						for _, x := range cs {
+							cr := core.RootOf(x.Parent())
+							if cr == nil {
+								cr = x.Parent()
+							}
+							if b := core.BaseName(cr); b != "processOutgoingInterest" && b != "processOutgoingData" {
+								okVia = false
+							}
+						}
+					}
+					if !okVia {
+						bad = core.FuncName(fn) + " at " + c.Pos(in)
+					}
 				}
 			})
 		}
